@@ -580,6 +580,9 @@ func (e *integEngine) checkC11Shared() {
 				break // the chain ends where an execution did not complete
 			}
 			name := mangleOutputName(t.Name)
+			if t.ExportAs != "" {
+				name = t.ExportAs
+			}
 			for _, r := range e.execs {
 				if e.pl.identity(r.Info.GID) != s.Name || r.Info.Owner != t.Name || r.Info.Block == "cond" {
 					continue
